@@ -108,6 +108,9 @@ def r1(idx, rep, tier):
     bad = {}
     cur_dom = [None, 0, 1, 2, 3]
     new_dom = [None, 0, 1, 2, 3, "true", "false"]
+    if tier == "thorough":
+        cur_dom = cur_dom + [-1, 2.5, 10]
+        new_dom = new_dom + [-1, 2.5, 10, "x", "True"]
     for bits in itertools.product([False, True], repeat=len(QUALS)):
         q = dict(zip(QUALS, bits))
         for dm in (True, False):
